@@ -624,6 +624,9 @@ func main() {
 		if chains%3 == 1 {
 			f["code"] = resp.Code[:len(resp.Code)-1] + string('0'+(resp.Code[len(resp.Code)-1]-'0'+1)%10)
 		}
+		if chains%5 == 3 {
+			f["code"] = pick(r, []string{" " + resp.Code, resp.Code + "\n", "\t" + resp.Code + "\r\n", resp.Code + " "})
+		}
 		if rq.path != "/ocra/generate" && chains%4 == 2 {
 			f["skew"] = 1 + r.intn(3)
 		}
